@@ -324,11 +324,13 @@ def tune_malloc():
         pass
 
 
-def guarded_main(prop: str, level: str, body):
+def guarded_main(prop: str, level: str, body, generic_replay: bool = False):
+    """Run body(run); any unexpected exception in the harness is exit 2, never a violation."""
     if os.environ.get("VERIF_NO_MALLOPT") != "1":
         tune_malloc()
-    """Run body(run); any unexpected exception in the harness is exit 2, never a violation."""
     run = Run(prop, level)
+    if generic_replay and run.args.replay:
+        return _generic_replay(run, body)
     try:
         body(run)
     except SystemExit:
@@ -337,3 +339,42 @@ def guarded_main(prop: str, level: str, body):
         traceback.print_exc()
         run.harness_error("uncaught exception in harness: " + traceback.format_exc().splitlines()[-1])
     run.finish()
+
+
+def _generic_replay(run, body):
+    """--replay FILE for checks whose obligations are regenerated from seeds: the obligation class named in the replay file
+    is re-decided on the current tree (solver + concrete replay, exactly as in a normal run, restricted with --only when
+    the key says which family); exit 1 iff a violation with the same key is reported again.  Evidence is not rewritten."""
+    import shutil
+    import tempfile
+
+    global REPLAY_DIR
+    with open(run.args.replay) as f:
+        rp = json.load(f)
+    key = rp.get("key", "")
+    tmp = tempfile.mkdtemp(prefix="verif_replay_")
+    REPLAY_DIR = tmp
+    fam = key.split("/")[0]
+    if run.args.only is None:
+        hint = {"special": "special", "c09": "c09", "c08s": "c08", "c08g": "c08", "symst": "symst"}.get(fam)
+        if hint is None and fam[:1] == "F" and fam[1:2].isdigit():
+            hint = fam.rstrip("sg") if fam.startswith("F4") else fam
+        if hint:
+            run.args.only = hint
+    try:
+        body(run)
+    except SystemExit:
+        raise
+    except Exception:
+        traceback.print_exc()
+        print("REPLAY: harness error", flush=True)
+        shutil.rmtree(tmp, ignore_errors=True)
+        sys.exit(EXIT_HARNESS)
+    again = [v for v in run.violations if v["key"] == key]
+    shutil.rmtree(tmp, ignore_errors=True)
+    if again:
+        print(f"REPLAY: REPRODUCED property={run.prop} key={key}: {again[0]['what'][:300]}", flush=True)
+        sys.exit(EXIT_VIOLATION)
+    known = any(k == key or key.startswith(k) for k in run.known_hit)
+    print(f"REPLAY: not reproduced on the current tree (key={key}{', listed as a known finding' if known else ''})", flush=True)
+    sys.exit(EXIT_OK)
